@@ -37,29 +37,29 @@ type fnCtx struct {
 	heapOrder []string
 	epoch     int
 
-	vals      map[ssa.Value]Val
-	entry     *State
-	exits     map[*ssa.BasicBlock]*State
-	edgeCond  map[[2]int]string
-	obls      []*Obligation
-	ordinals  map[string]int
-	loops     map[*ssa.BasicBlock]*loopInfo
-	loopOrder []*ssa.BasicBlock
-	params    map[string]Val
-	results   []Val
-	notes     []string
-	globals   map[string]string
-	assumed   []string // assumptions used (for evidence)
-	curBlock  *ssa.BasicBlock
-	depth     int
-	deferred  []*ssa.Defer
-	deferArgs [][]Val
-	propsAll  []string
-	closures  []*ssa.MakeClosure
-	implSyms  map[string]types.Type
-	pureDone  map[string]bool
-	inQuant   int
-	noOblige  int
+	vals         map[ssa.Value]Val
+	entry        *State
+	exits        map[*ssa.BasicBlock]*State
+	edgeCond     map[[2]int]string
+	obls         []*Obligation
+	ordinals     map[string]int
+	loops        map[*ssa.BasicBlock]*loopInfo
+	loopOrder    []*ssa.BasicBlock
+	params       map[string]Val
+	results      []Val
+	notes        []string
+	globals      map[string]string
+	assumed      []string // assumptions used (for evidence)
+	curBlock     *ssa.BasicBlock
+	depth        int
+	deferred     []*ssa.Defer
+	deferArgs    [][]Val
+	propsAll     []string
+	closures     []*ssa.MakeClosure
+	implSyms     map[string]types.Type
+	pureDone     map[string]bool
+	inQuant      int
+	noOblige     int
 	noGlobalInit int
 	verCounter   int
 	preHeaps     bool
@@ -70,8 +70,8 @@ type fnCtx struct {
 	sliceBase    map[string]sliceBaseRec
 	locals       map[string]Val
 	localIsAddr  map[string]bool
-	globalVals map[*ssa.Global]Val
-	globalSyms map[string]*ssa.Global
+	globalVals   map[*ssa.Global]Val
+	globalSyms   map[string]*ssa.Global
 }
 
 type sliceBaseRec struct{ off, delta string }
@@ -1172,5 +1172,10 @@ func (fc *fnCtx) doReturn(ins *ssa.Return, st *State) {
 	}
 	// cover: return reachable
 	fc.ordinals["cover.return"]++
-	fc.obls = append(fc.obls, &Obligation{Name: fmt.Sprintf("%s#cover.return.%d", fc.g.fnName(fc.fn), fc.ordinals["cover.return"]), Kind: "cover", Reach: reachBefore, Goal: "false", Func: fc.g.fnName(fc.fn), fc: fc, Cover: true, Props: fc.propsAll})
+	fc.obls = append(fc.obls, &Obligation{Name: fmt.Sprintf("%s#cover.return.%d", fc.g.fnName(fc.fn), fc.ordinals["cover.return"]), Kind: "cover", Reach: reachBefore, Goal: "false", Pos: fc.pos(ins.Pos()), Func: fc.g.fnName(fc.fn), fc: fc, Cover: true, Props: fc.propsAll})
+	// cover: the facts assumed while the postconditions were evaluated (ghost definitions, invariants of the
+	// values they read, the postconditions themselves) leave the path feasible
+	if st.reach != reachBefore {
+		fc.obls = append(fc.obls, &Obligation{Name: fmt.Sprintf("%s#cover.exit.%d", fc.g.fnName(fc.fn), fc.ordinals["cover.return"]), Kind: "cover", Reach: st.reach, Goal: "false", Pos: fc.pos(ins.Pos()), Func: fc.g.fnName(fc.fn), fc: fc, Cover: true, Props: fc.propsAll})
+	}
 }
